@@ -30,9 +30,14 @@ def generate(rng, tier):
     n = 150 if tier == "quick" else 4000
     for _ci in range(n):
         yield gen_case(rng)
+    # every instrument limit, at the limit and one beyond, once per run (deterministic sweep)
+    for fld, vals in (("twait", [1, 2, -1]), ("nrep", [65536, 65537, -1]), ("jump_target", ["N", "N+1", -1, -2]),
+                      ("goto", ["N", "N+1", 0, -1])):
+        for v in vals:
+            yield gen_case(rng, force=(fld, v))
 
 
-def gen_case(rng):
+def gen_case(rng, force=None):
     regs = Regs()
     SR = rng.choice([100, 1000.0, 1e4, 64, 1024])
     N = rng.randint(6, 30)
@@ -48,6 +53,8 @@ def gen_case(rng):
     # about half of the cases stay completely inside the ranges (the package is produced and examined in full);
     # the others leave a range at exactly one (position, channel)
     klass = rng.choice(["inside"] * 9 + ["voltage"] * 6 + ["sequencing"] * 5)
+    if force:
+        klass = "sequencing"
     any_out = klass != "voltage"
     order = list(range(1, npos + 1))
     rng.shuffle(order)                      # positions are filled in arbitrary order
@@ -118,6 +125,9 @@ def gen_case(rng):
                        "jump_target": rng.choice([-1, 0, 1, npos]), "goto": rng.choice([0, 1, npos]),
                        "jump_input": rng.choice([0, 3, 7])}[fld]
             prog.append(("SSetSequencing", s, pos, fld, val))
+    if force:
+        fv = {"N": npos, "N+1": npos + 1}.get(force[1], force[1])
+        prog = [o for o in prog if o[0] != "SSetSequencing"] + [("SSetSequencing", s, rng.randint(1, npos), force[0], fv)]
     i = rng.randrange(nch + 1)
     a = rng.randrange(nch + 1)
     prog += [("OSChannels", s), ("OSForge", s, True, True, False), ("OSAwg", s, ("slice", None, None, None)),
